@@ -74,7 +74,7 @@ func buildRouter(defs []refmodel.RouteDef, rec *hitRec, opts ...func(*rux.Router
 }
 
 // registration APIs a route can come in through
-var regAPIs = []string{"Add", "AddRoute(NewRoute)", "AddNamed", "NewRoute.AttachTo", "method-helper", "WithOptions-then-Add", "Group(split)", "Group(nested split)"}
+var regAPIs = []string{"Add", "AddRoute(NewRoute)", "AddNamed", "NewRoute.AttachTo", "method-helper", "WithOptions-then-Add", "Group(split)", "Group(nested split)", "Group(root)"}
 
 // splitForGroup cuts a pattern at its last '/' that lies outside braces and brackets: ("/a/{x}", "/b") for "/a/{x}/b".
 // ok is false when there is no such cut with a non-empty prefix and a non-empty remainder.
@@ -176,6 +176,9 @@ func registerIntoAt(r0 *rux.Router, defs []refmodel.RouteDef, via []string, rout
 				} else {
 					rt = r.Add(d.Path, h, d.Methods...)
 				}
+			case "Group(root)":
+				// the whole pattern inside a group mounted at the site root (prefix "/" or "")
+				r.Group([]string{"/", ""}[i%2], func() { rt = r.Add(d.Path, h, d.Methods...) })
 			case "Group(nested split)":
 				// the pattern spelled as two nested group prefixes plus a route path; the inner prefix is given WITHOUT its
 				// leading slash (prefixes are normalised one by one)
